@@ -26,6 +26,7 @@ theorem splitScheme_some {s x r : Str} (h : splitScheme s = (some x, r)) :
   | nil => rw [hd] at h; simp at h
   | cons c rest =>
     rw [hd] at h
+    simp only at h
     by_cases hc : c = cColon ∧ s.takeWhile notGenDelim ≠ []
     · simp only [hc, ne_eq, not_false_eq_true, and_self, if_true] at h
       injection h with h1 h2
@@ -41,6 +42,7 @@ theorem splitScheme_none {s r : Str} (h : splitScheme s = (none, r)) : r = s := 
   | nil => rw [hd] at h; simp at h; exact h.symm
   | cons c rest =>
     rw [hd] at h
+    simp only at h
     by_cases hc : c = cColon ∧ s.takeWhile notGenDelim ≠ []
     · rw [if_pos hc] at h; simp at h
     · rw [if_neg hc] at h; simp at h; exact h.symm
@@ -64,7 +66,7 @@ theorem splitAuthority_some {s a r : Str} (h : splitAuthority s = (some a, r)) :
 theorem splitAuthority_none {s r : Str} (h : splitAuthority s = (none, r)) : r = s := by
   unfold splitAuthority at h
   match s, h with
-  | [], h => simp at h; exact h.symm
+  | [], h => simp at h; exact h
   | [_], h => simp at h; exact h.symm
   | x :: y :: rest, h =>
     simp only at h
@@ -98,7 +100,7 @@ theorem splitQuery_none {s r : Str} (h : splitQuery s = (none, r)) :
     r = s ∧ s.head? ≠ some cQuest := by
   unfold splitQuery at h
   match s, h with
-  | [], h => simp at h; exact ⟨h.symm, by simp⟩
+  | [], h => simp at h; exact ⟨h, by simp⟩
   | c :: rest, h =>
     simp only at h
     by_cases hc : c = cQuest
@@ -120,42 +122,46 @@ theorem afterPath_shape (r2 : Str) :
 theorem splitFragment_hash (t : Str) : splitFragment (cHash :: t) = some t := by simp [splitFragment]
 theorem splitFragment_nil : splitFragment [] = none := rfl
 
+theorem tail_recompose (r2 : Str) (qu : Option Str) (r4 : Str) :
+    splitQuery (r2.dropWhile notQH) = (qu, r4) →
+    queryPart qu ++ fragmentPart (splitFragment r4) = r2.dropWhile notQH := by
+  intro hq
+  cases qu with
+  | some q =>
+    obtain ⟨h1, h2⟩ := splitQuery_some hq
+    rcases h2 with h2 | ⟨t, h2⟩
+    · subst h2; simpa [splitFragment, queryPart, fragmentPart] using h1
+    · subst h2; simpa [splitFragment, queryPart, fragmentPart] using h1
+  | none =>
+    obtain ⟨h1, h2⟩ := splitQuery_none hq
+    subst h1
+    rcases afterPath_shape r2 with h | ⟨t, h⟩ | ⟨t, h⟩
+    · simp [h, splitFragment, queryPart, fragmentPart]
+    · rw [h] at h2; simp at h2
+    · simp [h, splitFragment, queryPart, fragmentPart]
+
 /-- C12: parsing a reference into its five components and printing it again is the identity. -/
 theorem recompose_split (s : Str) : recompose (split s) = s := by
   unfold split recompose
   simp only
-  -- scheme
   rcases hsc : splitScheme s with ⟨sc, r1⟩
-  have e1 : (match sc with | some x => x ++ [cColon] | none => []) ++ r1 = s := by
-    cases sc with
-    | some x => have := (splitScheme_some hsc).1; simpa using this
-    | none => simpa using splitScheme_none hsc
-  -- authority
   rcases hau : splitAuthority r1 with ⟨au, r2⟩
-  have e2 : (match au with | some a => cSlash :: cSlash :: a | none => []) ++ r2 = r1 := by
-    cases au with
-    | some a => simpa using splitAuthority_some hau
-    | none => simpa using splitAuthority_none hau
-  -- path
-  have e3 := List.takeWhile_append_dropWhile (p := notQH) (l := r2)
-  -- query and fragment
   rcases hq : splitQuery (r2.dropWhile notQH) with ⟨qu, r4⟩
-  have e4 : (match qu with | some q => cQuest :: q | none => []) ++
-      (match splitFragment r4 with | some f => cHash :: f | none => []) = r2.dropWhile notQH := by
-    cases qu with
-    | some q =>
-      obtain ⟨h1, h2⟩ := splitQuery_some hq
-      rcases h2 with h2 | ⟨t, h2⟩
-      · subst h2; simpa [splitFragment] using h1
-      · subst h2; simpa [splitFragment] using h1
-    | none =>
-      obtain ⟨h1, h2⟩ := splitQuery_none hq
-      subst h1
-      rcases afterPath_shape r2 with h | ⟨t, h⟩ | ⟨t, h⟩
-      · rw [h]; simp [splitFragment]
-      · rw [h] at h2; simp at h2
-      · rw [h]; simp [splitFragment]
+  simp only
+  have e3 := List.takeWhile_append_dropWhile (p := notQH) (l := r2)
+  have e4 := tail_recompose r2 qu r4 hq
   simp only [List.append_assoc]
-  rw [e4, e3, e2, e1]
+  rw [e4, e3]
+  cases sc with
+  | some x =>
+    have h1 := (splitScheme_some hsc).1
+    cases au with
+    | some a => have h2 := splitAuthority_some hau; rw [← h1, ← h2]; simp [schemePart, authorityPart]
+    | none => have h2 := splitAuthority_none hau; rw [← h1, h2]; simp [schemePart, authorityPart]
+  | none =>
+    have h1 := splitScheme_none hsc
+    cases au with
+    | some a => have h2 := splitAuthority_some hau; rw [← h1, ← h2]; simp [schemePart, authorityPart]
+    | none => have h2 := splitAuthority_none hau; rw [← h1, h2]; simp [schemePart, authorityPart]
 
 end RdfModel.Proofs.C12
